@@ -182,6 +182,22 @@ func c13Middleware(c *Check, P string, m *MW) {
 			}
 		}
 		c.Floor(P+".O1", "store of nil into the error result (the 'reported as success' step)", nClear, 1)
+		// a failing message leaves the salvage closure unpublished only through the filter's 'no'
+		_, filterFalse := BoolEdges(d, ResultOfAny(filterCalls, 0))
+		for _, e := range errNonNil {
+			re := ReachEdge(e, NewCut().AddInstrs(instrsOf(pubs)...).AddEdges(filterFalse...))
+			ok := true
+			var wit []string
+			for _, ret := range Returns(d) {
+				if re[ret] {
+					ok = false
+					wit = append(wit, "exit at "+c.P.Pos(ret.Pos())+" reachable on the error edge without publishing and without the filter's verdict")
+				}
+			}
+			c.Report(ok, P+".O2", "POISON-UNLESS-FILTERED", d, e.From.Instrs[len(e.From.Instrs)-1].Pos(), "error edge", "on the error edge every path either publishes to the poison topic or leaves through the filter's 'no' (no other condition keeps a failing message out of the poison topic)", wit...)
+		}
+		// the filter is asked once per failure
+		c.Report(len(filterCalls) == 1 && !InLoop(filterCalls[0]), P+".O2", "FILTER-ASKED-ONCE", d, d.Pos(), "filter call", "the filter is consulted exactly once per failure")
 		// on the pubFail edge the error must not be nil at exit: no nil store reachable (covered by CLEAR-GUARD/published)
 		// O2: publish guard / once
 		for i, pc := range pubs {
